@@ -630,6 +630,20 @@ func (s *vfSM) applyPend(p vfPend, evs []vfCB, est map[uint64]int64, vs *[]*vfVi
 			dst, sig, msg := vfJudge(d)
 			if sig != "" {
 				s.add(vs, &vfViol{Owner: sig[:3], Sig: sig, Msg: msg})
+			} else if dst.kind == "already-resident" && s.preMap != nil {
+				// "or its key is already resident": the accounting named the key. That is right while the key is in the
+				// map, or while a Del of it has removed the entry and its marker is still on its way (the accounting
+				// forgets the key when the marker arrives). Otherwise nothing is resident under that key.
+				_, inMap := s.preMap[p.key]
+				delPending := s.blockedDel != nil && !s.blockedDel.isWait && s.blockedDel.key == p.key
+				for _, q := range s.fifo {
+					if q.kind == pDel && q.key == p.key {
+						delPending = true
+					}
+				}
+				if !inMap && !delPending {
+					s.add(vs, vfV("C09", "turned-away-as-resident-but-nothing-is-stored-under-the-key", "value %d (key %d) was turned away because the accounting names its key, but the map held nothing under it and no Del of it is on its way", p.tok, p.key))
+				}
 			}
 			s.st.decisions = append(s.st.decisions, dst)
 			if dst.evictions > 0 && !rejected {
@@ -821,8 +835,10 @@ func (s *vfSM) stepOne(vs *[]*vfViol) {
 		est = s.snapshotEst(p.key)
 	}
 	s.preAcct = nil
+	s.preMap = nil
 	if p.kind == pNew {
 		s.preAcct = s.policyKeys() // what the cache itself charges right before the decision
+		s.preMap = s.mapKeys()
 	}
 	s.stepOneReal()
 	s.fifo = s.fifo[1:]
